@@ -8,7 +8,7 @@ CONSTANTS Ids = {1}
  Ks = {10}
  Cap = 3
  BufCap = 4
- MaxN = 6
+ MaxN = 7
 INVARIANT Inv
 VIEW View
 CHECK_DEADLOCK FALSE
